@@ -127,21 +127,84 @@ theorem needItems_le : (xs : List JVal) → RawWFItems xs → needItems xs ≤ 3
     simp only [needItems, renderRawItems, List.length_cons, List.length_append] at h2 ⊢; omega
 end
 
+/-! ### the ROR2 instance of the generic tree round trip -/
+
+def rawLeaf (esc : Bytes → Bytes) : Doc → JVal
+  | .int v => .str (Strconv.formatInt v)
+  | .f64 b => .str (ror2Float esc b)
+  | .bool b => .str (if b then trueB else falseB)
+  | .str b => .str (ror2Str esc b)
+  | .bytes b => .str (ror2Str esc b)
+  | _ => .str []
+
+/-- ROR2: every leaf is a raw token, keys are escaped like strings -/
+def rawEnc (esc : Bytes → Bytes) (plus : Bool) : TreeEnc :=
+  { sem := ror2Sem plus, key := ror2Str esc, leaf := rawLeaf esc }
+
+mutual
+theorem rawOf_eq_treeOf (esc : Bytes → Bytes) (plus : Bool) : (d : Doc) → rawOf esc d = treeOf (rawEnc esc plus) d
+  | .int _ => by simp [rawOf, treeOf, rawEnc, rawLeaf]
+  | .f64 _ => by simp [rawOf, treeOf, rawEnc, rawLeaf]
+  | .bool _ => by simp [rawOf, treeOf, rawEnc, rawLeaf]
+  | .str _ => by simp [rawOf, treeOf, rawEnc, rawLeaf]
+  | .bytes _ => by simp [rawOf, treeOf, rawEnc, rawLeaf]
+  | .obj kvs => by simp [rawOf, treeOf, rawOfKvs_eq esc plus kvs]
+  | .arr xs => by simp [rawOf, treeOf, rawOfItems_eq esc plus xs]
+theorem rawOfKvs_eq (esc : Bytes → Bytes) (plus : Bool) : (kvs : List (Bytes × Doc)) →
+    rawOfKvs esc kvs = treeOfKvs (rawEnc esc plus) kvs
+  | [] => by simp [rawOfKvs, treeOfKvs]
+  | (k, v) :: rest => by
+    simp only [rawOfKvs, treeOfKvs, rawOf_eq_treeOf esc plus v, rawOfKvs_eq esc plus rest]
+    simp [rawEnc]
+theorem rawOfItems_eq (esc : Bytes → Bytes) (plus : Bool) : (xs : List Doc) →
+    rawOfItems esc xs = treeOfItems (rawEnc esc plus) xs
+  | [] => by simp [rawOfItems, treeOfItems]
+  | v :: rest => by simp [rawOfItems, treeOfItems, rawOf_eq_treeOf esc plus v, rawOfItems_eq esc plus rest]
+end
+
+theorem rawLaws (esc : Bytes → Bytes) (plus : Bool) (E : EscLaws esc plus) (F : FloatLaws) :
+    TreeLaws (rawEnc esc plus) where
+  key_rt := fun k => decodeKey_ror2Str esc plus E k
+  leaf_ne_null := by intro d; cases d <;> simp [rawEnc, rawLeaf]
+  prim_rt := by
+    intro p v doc hv h
+    cases p <;> cases v <;> simp only [encPrim, Except.ok.injEq, reduceCtorEq] at h <;> subst h <;>
+      simp only [rawEnc, rawLeaf, ror2Sem, normPrim, liftTok]
+    · simp only [ValOK] at hv; rw [tokPrim_i32 plus _ hv.1 hv.2]
+    · simp only [ValOK] at hv; rw [tokPrim_i64 plus _ hv.1 hv.2]
+    · simp only [ValOK] at hv; rw [tokPrim_f32 esc plus E F _ hv]
+    · simp only [ValOK] at hv; rw [tokPrim_f64 esc plus E F _ hv]
+    · rw [tokPrim_bool]
+    · rw [tokPrim_str esc plus E]
+    · rw [tokPrim_bytes esc plus E]
+  str_rt := by
+    intro s
+    simp [rawEnc, rawLeaf, ror2Sem, tokString_ror2Str esc plus E s]
+
+/-- the round-trip context of a ROR2 flavour -/
+def ror2Ctx (env : Env) (esc : Bytes → Bytes) (plus : Bool) (E : EscLaws esc plus) (F : FloatLaws)
+    (S : SchemaOK env) : RTCtx :=
+  { env := env, enc := rawEnc esc plus, L := rawLaws esc plus E F, S := S }
+
 /-! ### composition -/
 
-/-- the cursor reader that matches `X.cfg` -/
-def RTCtx.rc (X : RTCtx) (ign : Nat) : RCfg :=
-  { env := X.env, tracker := { excl := .empty, ignore := ign }, plus := X.plus, query := false }
+/-- the cursor reader that matches the writer configuration -/
+def ror2Rc (env : Env) (plus : Bool) (ign : Nat) : RCfg :=
+  { env := env, tracker := { excl := .empty, ignore := ign }, plus := plus, query := false }
 
 /-- **ROR2 round trip at byte level** for every value whose encoding is an object (records, maps,
 unions — at any nesting depth inside): `Unmarshal(Marshal(v)) = norm v`, all input consumed,
 nothing reported missing. -/
-theorem ror2_roundtrip_obj (X : RTCtx) (ign f : Nat) (ty : Ty) (v : Value) (kvs : List (Bytes × Doc))
-    (hv : ValOK v) (henc : encode X.cfg f [] ty v = .ok (.obj kvs)) :
-    unmarshalRor2 (X.rc ign) ty (renderRor2 X.esc (.obj kvs)) =
-      .ok (norm X.env f ty v) { rest := [], start := false, missing := [] } := by
-  have hwf : RawWF (rawOf X.esc (.obj kvs)) := rawOf_wf X.esc X.plus X.E X.F _
-  have htree := roundtrip_tree X ign f [] [] true ty v _ hv henc
+theorem ror2_roundtrip_obj (env : Env) (esc : Bytes → Bytes) (plus : Bool) (E : EscLaws esc plus) (F : FloatLaws)
+    (S : SchemaOK env) (ign f : Nat) (ty : Ty) (v : Value) (kvs : List (Bytes × Doc))
+    (hv : ValOK v) (henc : encode (ror2Ctx env esc plus E F S).cfg f [] ty v = .ok (.obj kvs)) :
+    unmarshalRor2 (ror2Rc env plus ign) ty (renderRor2 esc (.obj kvs)) =
+      .ok (norm env f ty v) { rest := [], start := false, missing := [] } := by
+  have hwf : RawWF (rawOf esc (.obj kvs)) := rawOf_wf esc plus E F _
+  have htree := roundtrip_tree (ror2Ctx env esc plus E F S) ign f [] [] true ty v _ hv henc
+  have hte : treeOf (ror2Ctx env esc plus E F S).enc (.obj kvs) = rawOf esc (.obj kvs) :=
+    (rawOf_eq_treeOf esc plus _).symm
+  rw [hte] at htree
   rw [renderRor2_eq_renderRaw]
   unfold unmarshalRor2
   rw [validate_raw _ hwf]
@@ -149,13 +212,13 @@ theorem ror2_roundtrip_obj (X : RTCtx) (ign f : Nat) (ty : Ty) (v : Value) (kvs 
   have hfuel := needT_le _ hwf
   simp only [rawOf] at hwf htree hfuel ⊢
   simp only [RawWF] at hwf
-  have hb := bridge_top_obj (X.rc ign) rfl (rawOfKvs X.esc kvs) hwf
-    (3 * (renderRaw (.obj (rawOfKvs X.esc kvs))).length + 8) (by omega) ty []
+  have hb := bridge_top_obj (ror2Rc env plus ign) rfl (rawOfKvs esc kvs) hwf
+    (3 * (renderRaw (.obj (rawOfKvs esc kvs))).length + 8) (by omega) ty []
   simp only [List.append_nil] at hb
   rw [hb]
-  have : tcOf (X.rc ign) = X.tc ign := rfl
+  have : tcOf (ror2Rc env plus ign) = (ror2Ctx env esc plus E F S).tc ign := rfl
   rw [this, htree]
-  simp [liftT]
+  simp [liftT, ror2Ctx]
 
 /-! ### a decidable check of the schema hypotheses -/
 
